@@ -114,6 +114,22 @@ def conflict_cases(exe, dt, rng):
                               f"mkdir 0 0 {hx(b'D')}", f"open 1 0 0 {hx(b'F')} 2", "close 1",
                               "free 0 0", f"undel 0 0 880 {sect[b'D']}", "free 0 0", f"undel 0 0 880 {sect[b'F']}", "free 0 0",
                               f"mkdir 0 0 {hx(b'dd')}", "list 0 0 1"])
+    # (c) DIRCACHE only: the volume is full but for the deleted entry's own blocks and the parent's last cache block is
+    #     full, so that putting the entry back would need a new cache block that does not exist
+    if dt in (5, 7):
+        for kind in ("d", "f"):
+            pre = gen.prologue(dt, clock=(2019, 9, 9, 9, 9, 9))
+            for i in range(15): pre += [f"open 1 0 0 {hx(b'a%02d' % i)} 2", "close 1"]
+            pre += [f"open 1 0 0 {hx(b'ss')} 2", "write 1 10 1", "close 1"]
+            pre += [f"mkdir 0 0 {hx(b'dd')}"] if kind == "d" else [f"open 1 0 0 {hx(b'dd')} 2", "write 1 700 5", "close 1"]
+            pre += [f"open 1 0 0 {hx(b'a00')} 3", "write 1 2000000 9", "close 1", "list 0 0 1"]
+            rc, cb, err = vlib.run_c(exe, pre, timeout=300)
+            if rc != 0: continue
+            sect = {bytes.fromhex(l.split()[3]): int(l.split()[4]) for l in cb[-1] if l.startswith("E ")}
+            if b"dd" not in sect: continue
+            out.append(pre + [f"remove 0 0 {hx(b'ss')}", f"remove 0 0 {hx(b'dd')}", f"open 1 0 0 {hx(b'y1')} 2", "close 1",
+                              f"open 1 0 0 {hx(b'y2')} 2", "close 1",
+                              "free 0 0", f"undel 0 0 880 {sect[b'dd']}", "free 0 0", "list 0 0 1", "usedirc 1", "list 0 0 1", "usedirc 0"])
     return out
 
 def conflict_probe(exe, seed):
@@ -156,6 +172,14 @@ def tie_check(exe, n, seed):
     for dt in range(8):
         for ops in conflict_cases(exe, dt, vlib.rng_for(seed, f"undelconf/{dt}")):
             one(ops + ["unmount 0 0", "closedev 0"])
+    for pre, nb in hardfile_cases(vlib.rng_for(seed, "undelhdf")):
+        rc, cb, err = vlib.run_c(exe, pre)
+        if rc != 0: continue
+        sect = {bytes.fromhex(l.split()[3]): int(l.split()[4]) for l in cb[-1] if l.startswith("E ")}
+        if b"x" in sect and b"d" in sect:
+            hx = gen.hx
+            one(pre + [f"remove 0 0 {hx(b'x')}", f"remove 0 0 {hx(b'd')}", f"undel 0 0 {nb // 2} {sect[b'x']}", f"undel 0 0 {nb // 2} {sect[b'd']}",
+                       "free 0 0", "list 0 0 1", "unmount 0 0", "closedev 0"])
     return cnt[0], out
 
 def tie_report(res, exe, n):
@@ -166,9 +190,47 @@ def tie_report(res, exe, n):
         o, d = ties[0]
         res.violation(f"correspondence broken on {len(ties)} undelete histories: {str(d)[:200]}", dict(kind="correspondence", ops=o, detail=str(d)), False)
 
+def hardfile_cases(rng):
+    """undelete on hardfile volumes (no partition table): adfCheckParent / adfReadGenBlock depend on vol->blockSize"""
+    hx = gen.hx
+    out = []
+    for dt in (rng.randrange(8), 1):
+        nb = rng.choice([4000, 2301, 9000])
+        pre = gen.prologue(dt, kind=nb, clock=(2019, 9, 9, 9, 9, 9))
+        pre += [f"open 1 0 0 {hx(b'x')} 2", f"write 1 {rng.choice([4, 3000])} 1", "close 1", f"mkdir 0 0 {hx(b'd')}", "list 0 0 1"]
+        out.append((pre, nb))
+    return out
+
+def hardfile_probe(exe, seed):
+    bad = []
+    for k, (pre, nb) in enumerate(hardfile_cases(vlib.rng_for(seed, "undelhdf"))):
+        rc, cb, err = vlib.run_c(exe, pre)
+        if rc != 0: continue
+        sect = {bytes.fromhex(l.split()[3]): int(l.split()[4]) for l in cb[-1] if l.startswith("E ")}
+        if b"x" not in sect or b"d" not in sect: continue
+        hx = gen.hx
+        root = nb // 2
+        ops = pre + [f"remove 0 0 {hx(b'x')}", f"remove 0 0 {hx(b'd')}", "free 0 0", f"undel 0 0 {root} {sect[b'x']}", f"undel 0 0 {root} {sect[b'd']}",
+                     "free 0 0", "list 0 0 1", f"open 2 0 0 {hx(b'x')} 1", "read 2 100000", "close 2"]
+        p = os.path.join(vlib.scratch(), f"undelhdf_{k}.img")
+        rc, cb, err = vlib.run_c(exe, ops + ["unmount 0 0", f"dumpimg 0 {p}", "closedev 0", "allocs"])
+        san = vlib.sanitizer_report(err)
+        if san or rc != 0: bad.append((ops, f"{san or 'harness exit %d' % rc} in an undelete history on a hardfile")); continue
+        und = [j for j, o in enumerate(ops) if o.startswith("undel")]
+        if not all("rc=0" in cb[j][0] for j in und):
+            bad.append((ops, f"undelete of entries whose blocks are all free is refused on a hardfile: {[cb[j][0] for j in und]}"))
+        elif sorted(l.split()[:6] for l in cb[len(pre) - 1] if l.startswith("E ")) != sorted(l.split()[:6] for l in cb[und[-1] + 2] if l.startswith("E ")):
+            bad.append((ops, "listing after undeleting everything differs from the listing before the removals (hardfile)"))
+        try:
+            img = open(p, "rb").read(); os.unlink(p)
+            for e in fsck.fsck_image(img, 0, nb).errors[:3]: bad.append((ops, "after undelete on a hardfile: " + e))
+        except OSError: pass
+        if cb[-1] and cb[-1][0] != "= live=0": bad.append((ops, f"after closing everything the library still holds allocations: {cb[-1][0]}"))
+    return bad
+
 def probe(res, exe, n):
     """returns a list of (ops, complaint)"""
-    bad = conflict_probe(exe, res.seed)
+    bad = conflict_probe(exe, res.seed) + hardfile_probe(exe, res.seed)
     for dt in (5, 7):
         ops = dircache_spill_case(exe, dt)
         if not ops: continue
